@@ -285,6 +285,83 @@ fn gen_case(rng: &mut Prng, flags: Option<usize>) -> Value {
     json!({"u": hex(u.as_bytes()), "u2": hex(u2.as_bytes()), "kind": kind, "cfg": cfg, "target": hex(target.as_bytes()), "host": host, "headers": headers})
 }
 
+/// Diff-directed search: cases built from the numbers and strings of the changed source lines (`VERIF_HINTS`).
+fn gen_hinted(rng: &mut Prng, emit: &mut dyn FnMut(Value)) {
+    let h = hints();
+    if h.is_empty() {
+        return;
+    }
+    let mkd: Vec<String> = ["utm_source", "utm_medium", "utm_campaign", "utm_term", "utm_content"].iter().map(|s| hex(s.as_bytes())).collect();
+    let cfgs: Vec<Value> = (0..8usize).map(|f| json!({"ic": f & 1 != 0, "im": f & 2 != 0, "pm": f & 4 != 0, "ihc": f & 1 != 0, "ihd": false, "amh": true, "mk": mkd})).collect();
+    let mut push = |u: String, u2: String, kind: &str, extra: Option<(Value, Option<String>, Option<String>)>, cfgs: &Vec<Value>, emit: &mut dyn FnMut(Value)| {
+        for (i, cfg) in cfgs.iter().enumerate() {
+            if u.len() > 2000 && i % 4 != 2 {
+                continue; // long URLs: two configurations are enough
+            }
+            let mut c = json!({"u": hex(u.as_bytes()), "u2": hex(u2.as_bytes()), "kind": kind, "cfg": cfg, "target": hex(b"/t"), "host": null, "headers": []});
+            if let Some((markers, rhost, host)) = &extra {
+                c["markers"] = markers.clone();
+                if let Some(rh) = rhost {
+                    c["rhost"] = json!(rh);
+                }
+                if let Some(hh) = host {
+                    c["host"] = json!(hex(hh.as_bytes()));
+                }
+            }
+            emit(c);
+        }
+    };
+    // sizes: total URL length, path length, query length, parameter-name length, value length, numbers of parameters
+    for n in h.sizes(70_000) {
+        let a = |k: usize| "a".repeat(k);
+        push(format!("/{}", a(n.saturating_sub(1))), format!("/{}", a(n.saturating_sub(1))), "hint-size", None, &cfgs, emit); // URL = n bytes
+        push(format!("/{}?b=1&a=2", a(n.saturating_sub(1))), format!("/{}?a=2&b=1", a(n.saturating_sub(1))), "hint-size", None, &cfgs, emit); // path = n
+        push(format!("/p?{}", a(n)), format!("/p?{}", a(n)), "hint-size", None, &cfgs, emit); // query = n
+        push(format!("/p?{}=1&b=2", a(n)), format!("/p?b=2&{}=1", a(n)), "hint-size", None, &cfgs, emit); // name = n
+        push(format!("/p?k={}&b=2", a(n)), format!("/p?b=2&k={}", a(n)), "hint-size", None, &cfgs, emit); // value = n
+        push(format!("/p?k={}", "%20".repeat(n)), format!("/p?k={}", "+".repeat(n)), "hint-size", None, &cfgs, emit); // n escapes
+        if n <= 3000 {
+            let ps: Vec<String> = (0..n).map(|i| format!("k{i}=v{i}")).collect();
+            let mut rev = ps.clone();
+            rev.reverse();
+            push(format!("/p?{}", ps.join("&")), format!("/p?{}", rev.join("&")), "hint-size", None, &cfgs, emit); // n parameters
+            let ms: Vec<String> = (0..n).map(|i| format!("utm_source=s{i}")).collect();
+            push("/p?a=1".to_string(), format!("/p?a=1&{}", ms.join("&")), "hint-size", None, &cfgs, emit); // n marketing parameters
+        }
+    }
+    // strings: raw, percent-encoded (both hex cases), upper / lower-cased; in paths, names, values, marketing names,
+    // hosts, declared-marker names
+    for st in &h.strs {
+        if st.is_empty() || st.len() > 200 {
+            continue;
+        }
+        let enc_up: String = st.bytes().map(|b| format!("%{:02X}", b)).collect();
+        let enc_lo: String = st.bytes().map(|b| format!("%{:02x}", b)).collect();
+        let mut variants: Vec<String> = vec![st.clone(), st.to_uppercase(), st.to_lowercase(), enc_up.clone(), enc_lo.clone()];
+        variants.dedup();
+        for v in &variants {
+            // a raw '?', '#' or '&' changes the structure of the URL, which is fine: the model follows
+            push(format!("/x{v}y?b=1&a=2"), format!("/x{v}y?a=2&b=1"), "hint-str", None, &cfgs, emit);
+            push(format!("/p?{v}=1&b=2"), format!("/p?b=2&{v}=1"), "hint-str", None, &cfgs, emit);
+            push(format!("/p?k={v}&b=2"), format!("/p?b=2&k={v}"), "hint-str", None, &cfgs, emit);
+            push(format!("/p?k{v}=1&k{v}=2"), format!("/p?k{v}=2&k{v}=1"), "hint-str", None, &cfgs, emit);
+            push(format!("/p?a=1"), format!("/p?a=1&{v}=m"), "hint-str", None, &cfgs, emit);
+        }
+        // as a marketing parameter name
+        for f in [2usize, 6, 7] {
+            let cfg = json!({"ic": f & 1 != 0, "im": true, "pm": f & 4 != 0, "ihc": false, "ihd": false, "amh": true, "mk": [hex(st.as_bytes()), hex(b"utm_source")]});
+            for v in [&enc_up, &enc_lo, st] {
+                emit(json!({"u": hex(b"/p?a=1"), "u2": hex(format!("/p?a=1&{v}=x").as_bytes()), "kind": "hint-str", "cfg": cfg, "target": hex(b"/t?q"), "host": null, "headers": []}));
+            }
+        }
+        // as a declared (unused) marker name, as a host, as a host-marker regex input
+        let ident: String = st.chars().filter(|c| c.is_ascii_alphanumeric()).collect();
+        let name = if ident.is_empty() { "m".to_string() } else { ident };
+        push("/Path/X?Q=1".to_string(), "/Path/X?Q=1".to_string(), "hint-str", Some((json!([[name, "[a-z]+"]]), None, Some(format!("h{}", rng.below(9))))), &cfgs, emit);
+        push("/Path/X?Q=1".to_string(), "/Path/X?Q=1".to_string(), "hint-str", Some((json!([["m1", "[a-z]+"]]), Some("@m1.example.org".to_string()), Some("abc.example.org".to_string()))), &cfgs, emit);
+    }
+}
+
 fn gen(args: &Args, emit: &mut dyn FnMut(Value)) {
     let mut rng = Prng::new(args.seed);
     // pinned shapes (the D12 / D13 inputs and friends), under a few configurations
@@ -306,6 +383,57 @@ fn gen(args: &Args, emit: &mut dyn FnMut(Value)) {
             let mkd: Vec<String> = ["utm_source", "utm_medium", "utm_campaign", "utm_term", "utm_content"].iter().map(|s| hex(s.as_bytes())).collect();
             let cfg = json!({"ic": f & 1 != 0, "im": f & 2 != 0, "pm": f & 4 != 0, "ihc": false, "ihd": false, "amh": true, "mk": mkd});
             emit(json!({"u": hex(a.as_bytes()), "u2": hex(b.as_bytes()), "kind": "pin", "cfg": cfg, "target": hex(b"/t"), "host": null, "headers": []}));
+        }
+    }
+    let mkd: Vec<String> = ["utm_source", "utm_medium", "utm_campaign", "utm_term", "utm_content"].iter().map(|s| hex(s.as_bytes())).collect();
+    // hint-directed cases first (empty on the unchanged tree)
+    gen_hinted(&mut rng, emit);
+    // boundary family (4): URL rules that DECLARE markers which do not occur in the path / query (or only in the host),
+    // x the two case flags x upper-case letters in the literal path / query / host: self-match must still hold
+    {
+        let urls = ["/Shop/Item?Ref=AbC&b=1", "/a", "/UPPER/path", "/mixed/Case?Q=Z", "/p?utm_source=X&Key=Val", "/%C3%A9/X?y=%2B"];
+        let marker_sets: [&[(&str, &str)]; 4] = [&[("m1", "[a-z]+")], &[("m1", "[a-z]+"), ("other", "[0-9]+")], &[("Shop", "[A-Za-z]+")], &[("x", ".+?")]];
+        for (ui, u) in urls.iter().enumerate() {
+            for (mi, ms) in marker_sets.iter().enumerate() {
+                for f in 0..4usize {
+                    let ic = f & 1 != 0;
+                    let ihc = f & 2 != 0;
+                    let cfg = json!({"ic": ic, "im": (ui + mi) % 2 == 0, "pm": true, "ihc": ihc, "ihd": false, "amh": true, "mk": mkd});
+                    let markers: Vec<Value> = ms.iter().map(|(n, r)| json!([n, r])).collect();
+                    // (a) no host; the probe is the same URL with its ASCII case swapped when the flag allows it
+                    let u2 = if ic { u.to_ascii_uppercase().replace("%C3%A9", "%C3%A9") } else { u.to_string() };
+                    emit(json!({"u": hex(u.as_bytes()), "u2": hex(u2.as_bytes()), "kind": "declared-markers", "cfg": cfg, "target": hex(b"/t"), "host": null, "headers": [], "markers": markers}));
+                    // (b) the marker occurs only in the rule's HOST; the request host matches it (upper-case iff hosts are
+                    //     compared case-insensitively), plus a port / trailing-dot probe on a host-less rule
+                    let rh = format!("@{}.Example.org", ms[0].0).to_lowercase();
+                    let qhost = if ihc { "ABC.Example.ORG" } else { "abc.example.org" };
+                    if ms[0].1 == "[a-z]+" {
+                        emit(json!({"u": hex(u.as_bytes()), "u2": hex(u.as_bytes()), "kind": "declared-markers-host", "cfg": cfg, "target": hex(b"/t"), "host": hex(qhost.as_bytes()), "headers": [], "markers": markers, "rhost": rh}));
+                    }
+                    let probe_host = ["example.org.", "example.org:8080", "EXAMPLE.org.:443"][(ui + mi + f) % 3];
+                    emit(json!({"u": hex(u.as_bytes()), "u2": hex(u.as_bytes()), "kind": "host-probe", "cfg": cfg, "target": hex(b"/t"), "host": hex(probe_host.as_bytes()), "headers": [], "markers": markers}));
+                }
+            }
+        }
+    }
+    // boundary family (5): percent-encoded octets in parameter NAMES (both hex cases), '+', ';' as a would-be separator
+    {
+        let names = ["%2B", "%2b", "%25", "%26", "%3D", "%3d", "%20", "+", "a%2Bb", "a%2bb", "%25x", "n%26m", "k%3Dv", "a%20b", "a+b", "a;b", "%3B", "%3b", "%2Bk%2B", "%41", "%61", "%C3%A9", "%c3%a9"];
+        for (i, n) in names.iter().enumerate() {
+            for f in [0usize, 1, 2, 3, 6, 7] {
+                let cfg = json!({"ic": f & 1 != 0, "im": f & 2 != 0, "pm": f & 4 != 0, "ihc": false, "ihd": false, "amh": true, "mk": mkd});
+                let u = format!("/p?{n}=1&z=2");
+                let u2 = match i % 4 {
+                    0 => format!("/p?z=2&{n}=1"),
+                    1 => format!("/p?{n}=1&z=2&utm_source=s"),
+                    2 => u.clone(),
+                    _ => format!("/p?{}=1&z=2", if n.contains("%2B") { n.replace("%2B", "%2b") } else if n.contains("%2b") { n.replace("%2b", "%2B") } else { n.to_string() }),
+                };
+                emit(json!({"u": hex(u.as_bytes()), "u2": hex(u2.as_bytes()), "kind": "encoded-name", "cfg": cfg, "target": hex(b"/t?x=1"), "host": null, "headers": []}));
+                // ';' is NOT a separator for form_urlencoded::parse
+                let u3 = format!("/p?{n}=1;z=2&y=3");
+                emit(json!({"u": hex(u3.as_bytes()), "u2": hex(format!("/p?y=3&{n}=1;z=2").as_bytes()), "kind": "encoded-name", "cfg": cfg, "target": hex(b"/t"), "host": null, "headers": []}));
+            }
         }
     }
     if args.tier == "thorough" {
@@ -467,7 +595,19 @@ fn run(case: &Value) -> Obs {
 
     // the rule whose source is the literal path and query of u
     let (rpath, rquery) = split_q(&u);
-    let rule_json = json!({"id": "r", "rank": 0, "source": {"path": rpath, "query": rquery}, "target": target, "status_code": 302});
+    // optional: markers DECLARED by the rule (they need not occur in the path / query: the path then stays a static
+    // string, lower-cased iff the flag) and a rule host (possibly holding a marker)
+    let mut markers_json: Vec<Value> = Vec::new();
+    if let Some(a) = case.get("markers").and_then(|m| m.as_array()) {
+        for m in a {
+            match (m.get(0).and_then(|x| x.as_str()), m.get(1).and_then(|x| x.as_str())) {
+                (Some(n), Some(r)) => markers_json.push(json!({"name": n, "regex": r})),
+                _ => return Obs::invalid("markers"),
+            }
+        }
+    }
+    let rhost: Option<String> = case.get("rhost").and_then(|h| h.as_str()).map(|h| h.to_string());
+    let rule_json = json!({"id": "r", "rank": 0, "source": {"path": rpath, "query": rquery, "host": rhost}, "markers": markers_json, "target": target, "status_code": 302});
     let rule: Rule = match serde_json::from_value(rule_json) {
         Ok(r) => r,
         Err(e) => return Obs::invalid(&format!("rule json: {e}")),
@@ -535,6 +675,8 @@ fn run(case: &Value) -> Obs {
     let keys1: Vec<&String> = params1.iter().map(|kv| &kv.0).collect();
     let has_dup = { let mut k = keys1.clone(); k.sort(); k.windows(2).any(|w| w[0] == w[1]) };
     if has_dup { o = o.tag("dup-key"); }
+    if !markers_json.is_empty() { o = o.tag(format!("declared-markers:{}", markers_json.len())); }
+    if rhost.is_some() { o = o.tag("rule-host"); }
     if !u.is_ascii() { o = o.tag("non-ascii"); }
     if u.contains('%') { o = o.tag("percent"); }
     if u.contains('+') { o = o.tag("plus"); }
